@@ -1,6 +1,6 @@
 #!/bin/bash
 # runs every registered quick (or $1=thorough) check once; prints one line per check
-cd /verif
+cd "$(dirname "$0")/.."
 tier=${1:-quick}
 rc=0
 for id in $(python3 -c "import json;print(' '.join(c['property_id'] for c in json.load(open('MANIFEST.json'))['checks']))"); do
